@@ -1809,6 +1809,20 @@ def check_C08(rep):
         base = len(rep.distinct)
         rep.distinct.update(range(base, base + n))
         multirun_stage(rep, "c08-multirun-" + kind, kind, files, variants, "MultiRunTrace_C08.cfg", "cache is not transparent")
+    # nested containers with evictions INSIDE the history: the walks carry the model's own commits and cache drops (the model retires
+    # the child handles a cache drop invalidates); the same walk is run as it is, without the drops, without any intermediate commit,
+    # and with every drop turned into an abandon-and-reopen
+    wf, wn = sim_histories(rep, "Nested.tla", "Nested.cfg", {"MaxC": 8, "MaxE": 8, "Sizes": "{12, 60, 110}", "Persist": "TRUE", "Crashes": "FALSE",
+                                                             "Kinds": '{"A", "M"}', "Types": "{43, 44, 45}"},
+                           "Nested walks with the model's commits and cache drops (multi-run histories)", {"cfg": {"T": 256}}, "c08-mrh-np",
+                           48 if quick else 400, 100 if quick else 200)
+    base = len(rep.distinct)
+    rep.distinct.update(range(base, base + wn))
+    nv = [dict(V_REF, name="as-generated", keeppersist=True),
+          dict(V_REF, name="without-cache-drops", keeppersist=True, strip="drops", workers=2),
+          dict(V_REF, name="single-commit-at-end", keeppersist=True, strip="all"),
+          dict(V_REF, name="drops-become-reopenings", keeppersist=True, strip="reopen", mode="nondet", workers=3)]
+    multirun_stage(rep, "c08-multirun-nested-evictions", "nested", wf, nv, "MultiRunTrace_C08.cfg", "cache is not transparent (nested containers)")
     rep.exhaustive = False
 
 
